@@ -305,8 +305,10 @@ def jobs(tier):
         for op in DEQUE_OPS:
             out.append(dict(id='deque.%s.N=%d' % (op, N), func='ob_deque', params=dict(N=N, op=op, policy='none'), tags=['C11', 'C08'], functions=DEQUE_F, weight=N * 3))
         for op in INDEX_OPS:
+            if N >= 3 and op == 'update':
+                continue  # two symbolic keys on top of three symbolic rows: 6800 paths, covered at N=2
             out.append(dict(id='index.%s.N=%d' % (op, N), func='ob_index', params=dict(N=N, op=op, policy='none'), tags=['C12', 'C08'], functions=INDEX_F, weight=N * 3))
-        for op in ('eq_dict_otherkey', 'ne_dict_otherkey', 'eq_dict', 'eq_ordered', 'getitem', 'get', 'pop', 'setdefault', 'values', 'items'):
+        for op in (('eq_dict_otherkey', 'ne_dict_otherkey', 'eq_dict', 'eq_ordered', 'getitem', 'get', 'pop', 'setdefault', 'values', 'items') if N == 2 else ('getitem', 'pop', 'setdefault')):
             out.append(dict(id='index.%s.nones.N=%d' % (op, N), func='ob_index', params=dict(N=N, op=op, policy='none', nones=True), tags=['C12', 'C01'], functions=INDEX_F, weight=N * 4))
     return out
 
@@ -350,9 +352,16 @@ def ob_deque_pair(w, P):
             res['B'] = run(dqB, opB, b)
         finally:
             w.tid = old
-    _interleave(x, w, P.get('max_events', 30), intruder)
-    x.begin()
-    rA = run(dqA, opA, a)
+    if P.get('il'):
+        box = {}
+        x.begin()
+        w.interleave(lambda: box.__setitem__('A', run(dqA, opA, a)), lambda: res.__setitem__('B', run(dqB, opB, b)),
+                     x.s.v_int('at', 0, P.get('max_events', 12)), x.s.v_int('at2', 0, P.get('max_events', 12)), id_a=(w.pid, 1), id_b=(w.pid, 2))
+        rA = box['A']
+    else:
+        _interleave(x, w, P.get('max_events', 30), intruder)
+        x.begin()
+        rA = run(dqA, opA, a)
     x.end()
     final = list(dqA)
     if 'B' not in res:
@@ -423,9 +432,16 @@ def ob_index_pair(w, P):
             res['B'] = run(ixB, opB, b)
         finally:
             w.tid = old
-    _interleave(x, w, P.get('max_events', 30), intruder)
-    x.begin()
-    rA = run(ixA, opA, a)
+    if P.get('il'):
+        box = {}
+        x.begin()
+        w.interleave(lambda: box.__setitem__('A', run(ixA, opA, a)), lambda: res.__setitem__('B', run(ixB, opB, b)),
+                     x.s.v_int('at', 0, P.get('max_events', 12)), x.s.v_int('at2', 0, P.get('max_events', 12)), id_a=(w.pid, 1), id_b=(w.pid, 2))
+        rA = box['A']
+    else:
+        _interleave(x, w, P.get('max_events', 30), intruder)
+        x.begin()
+        rA = run(ixA, opA, a)
     x.end()
     final = list(ixA.items())
     if 'B' not in res:
@@ -572,6 +588,12 @@ def pair_jobs(tier):
                           ('popleft', 'popleft', False), ('append', 'pop', True)]:
         out.append(dict(id='deque.pair.%s.%s.%s' % (a, b, 'bounded' if bounded else 'unbounded'), func='ob_deque_pair', params=dict(N=N, a=a, b=b, bounded=bounded, policy='none'),
                         tags=['C11', 'C05', 'C10'], functions=DEQUE_F, weight=30, must_reach=['interleaved']))
+    for a, b, bounded in [('append', 'appendleft', True), ('append', 'pop', True), ('pop', 'popleft', False), ('append', 'popleft', False)]:
+        out.append(dict(id='deque.pair_il.%s.%s.%s' % (a, b, 'bounded' if bounded else 'unbounded'), func='ob_deque_pair', params=dict(N=N, a=a, b=b, bounded=bounded, policy='none', il=True, max_events=10),
+                        tags=['C11', 'C05', 'C10'], functions=DEQUE_F, weight=30, must_reach=['both_suspended']))
+    for a, b in [('popitem', 'setitem'), ('setdefault', 'delitem'), ('pop', 'setitem'), ('setitem', 'popitem')]:
+        out.append(dict(id='index.pair_il.%s.%s' % (a, b), func='ob_index_pair', params=dict(N=1, a=a, b=b, policy='none', il=True, max_events=7), tags=['C12', 'C05'], functions=INDEX_F, weight=30,
+                        must_reach=['both_suspended']))
     for a, b in [('popitem', 'setitem'), ('popitem', 'delitem'), ('popitem', 'popitem'), ('setdefault', 'setitem'), ('setdefault', 'delitem'), ('setitem', 'popitem'),
                  ('pop', 'setitem'), ('popitem_first', 'setitem'), ('getitem', 'setitem'), ('getitem', 'delitem')]:
         out.append(dict(id='index.pair.%s.%s' % (a, b), func='ob_index_pair', params=dict(N=N, a=a, b=b, policy='none'), tags=['C12', 'C05'], functions=INDEX_F, weight=30,
